@@ -622,7 +622,7 @@ def judge_oracle_only(ctx, case, R):
         ctx.hist["skipped_model_raises"] = ctx.hist.get("skipped_model_raises", 0) + 1
         return
     if "gen" in ent:
-        ctx.judge(sc, ent["gen"], {"ok": "text emitted"}, None, what="py: generation raised (wider expression fragment)")
+        ctx.judge(sc, ent["gen"], {"ok": "text emitted"}, None, what="py: generation raised (oracle-only stratum)")
         return
     classes = cg.rich_classes(case["content"])
     fid = "F-C07-10" if "recip-modulus" in classes else "F-C07-11" if "shared-modulus" in classes else None
@@ -634,7 +634,7 @@ def judge_oracle_only(ctx, case, R):
         if cg.close(Re, S):
             Re = S
         ctx.judge(sub_case(case, "py", si), Re, S, None, finding=fid,
-                  what="py: generated code vs model (wider expression fragment)")
+                  what="py: generated code vs model (oracle-only stratum)")
 
 
 def judge_phase(ctx, case, R, M, extern=None, tag=""):
